@@ -176,9 +176,14 @@ func (s *Session) handle(p *com.Packet) bool {
 		}
 		return true
 	}
-	s.lock.RLock()
+	// NOTE: The Job is looked up and removed in one locked step, so exactly one
+	//       caller (this function or Job.Cancel) finishes it and closes 'done'.
+	s.lock.Lock()
 	j, ok := s.jobs[p.Job]
-	if s.lock.RUnlock(); !ok {
+	if ok {
+		delete(s.jobs, p.Job)
+	}
+	if s.lock.Unlock(); !ok {
 		if cout.Enabled {
 			s.log.Warning("[%s/ShC] Received an un-tracked Job %d!", s.ID, p.Job)
 		}
@@ -195,9 +200,7 @@ func (s *Session) handle(p *com.Packet) bool {
 	} else if j.Result != nil {
 		s.handleInfoResult(j.ID, j.Type, j.Result)
 	}
-	s.lock.Lock()
-	delete(s.jobs, j.ID)
-	if s.lock.Unlock(); j.done != nil {
+	if j.done != nil {
 		close(j.done)
 		j.done = nil
 	}
